@@ -11,6 +11,7 @@ precedence tower, comparisons, string/list/null predicates, literals incl. lists
 quantifiers, parameters, pattern predicates. Anything else is the explicit outcome `unmodelled rule`.
 -/
 import Dawgs.Model.C08
+import Dawgs.Model.C07Repairs
 namespace Dawgs.C07
 open Dawgs.Grammar Dawgs.C08
 
@@ -119,6 +120,11 @@ structure Names where
   toks : List (String × Nat)
   /-- mirror the code on the repeated-NOT shape (one Negation whatever the number of NOTs) instead of answering `unmodelled` -/
   mirrorNot : Bool := false
+  /-- which repaired visitors `build` follows (defaults: what /repo has, see Model/C07Repairs.lean) -/
+  exactHops : Bool := Repair.exactHops
+  nestedNot : Bool := Repair.nestedNot
+  chainedLookupRejected : Bool := Repair.chainedLookupRejected
+  spNotOperator : Bool := Repair.spNotOperator
 
 def Names.rule (N : Names) (r : Nat) : String := N.rules.getD r "?"
 def Names.tok (N : Names) (name : String) : Int := ((N.toks.find? (·.1 == name)).map (fun p => (p.2 : Int))).getD (-99)
@@ -237,7 +243,15 @@ def rangeStep (s : RangeSt) : RTok → RangeSt
       else if s.state == 2 then { s with stop := some v }
       else { s with errors := s.errors + 1 }
 
-def parseRange (ts : List RTok) : RangeSt := ts.foldl rangeStep {}
+/-- the loop of EnterOC_RangeLiteral; `exact`: the repaired visitor (hooks/C07-fix2.patch) then stores a single index without a
+range operator as both bounds -/
+def RTok.isDots : RTok → Bool
+  | .dots => true
+  | _ => false
+def parseRangeWith (exact : Bool) (ts : List RTok) : RangeSt :=
+  let st := ts.foldl rangeStep {}
+  if exact && !(ts.any RTok.isDots) && st.start.isSome then { st with stop := st.start } else st
+def parseRange (ts : List RTok) : RangeSt := parseRangeWith Repair.exactHops ts
 
 /-- format.go: `*`, start?, `..` iff start or end is set, end? -/
 def emitRange (r : Option Int × Option Int) : List String :=
@@ -267,7 +281,7 @@ def rangeTok (N : Names) (f : Nat) (k : Tree) : Option RTok :=
 
 /-- RelationshipPatternVisitor.EnterOC_RangeLiteral on one oC_RangeLiteral node -/
 def rangeOf (N : Names) (f : Nat) (r : Tree) : R (Option (Option Int × Option Int)) :=
-  let st := parseRange ((kids r).filterMap (rangeTok N f))
+  let st := parseRangeWith N.exactHops ((kids r).filterMap (rangeTok N f))
   -- SP children are `other` tokens: the real loop reports "unexpected token in pattern range" for them
   if st.errors > 0 then .error (.rejected "pattern range") else .ok (some (st.start, st.stop))
 
@@ -299,6 +313,34 @@ def mapM' {α β} (f : α → R β) : List α → R (List β)
 
 def arithOps : List String := ["+", "-", "*", "/", "%", "^"]
 
+/-- k nested negations -/
+def nestNeg : Nat → Expr → Expr
+  | 0, e => e
+  | k + 1, e => .neg (nestNeg k e)
+
+/-- the text of an SP token: a comment or a run of the grammar's white space (among them U+001C…U+001F, which Go's TrimSpace keeps) -/
+def isGrammarSpace (c : Char) : Bool :=
+  goIsSpace c || (0x1c ≤ c.toNat && c.toNat ≤ 0x1f) || c.toNat == 0x180e
+/-- the characters of an SP token: ( white space | `/* … */` | `// …` end of line )+ -/
+def skipBlockComment : List Char → Option (List Char)
+  | '*' :: '/' :: rest => some rest
+  | _ :: rest => skipBlockComment rest
+  | [] => none
+def skipLineComment : List Char → List Char
+  | '\n' :: rest => rest
+  | _ :: rest => skipLineComment rest
+  | [] => []
+def spChars : Nat → List Char → Bool
+  | 0, _ => false
+  | _ + 1, [] => true
+  | f + 1, '/' :: '*' :: rest => match skipBlockComment rest with | some r => spChars f r | none => false
+  | f + 1, '/' :: '/' :: rest => spChars f (skipLineComment rest)
+  | f + 1, c :: rest => isGrammarSpace c && spChars f rest
+def spText (s : String) : Bool := !s.isEmpty && spChars (s.length + 1) s.toList
+/-- the operator tokens newTokenLiteralIterator collects: non-blank terminals; the repaired iterator (hooks/C07-fix6.patch) skips SP
+tokens first (between arithmetic operands the only other terminals are operators, so the text decides) -/
+def opTokens (skipSP : Bool) (t : Tree) : List String := (litTokens t).filter (fun s => !(skipSP && spText s))
+
 mutual
 /-- ExpressionVisitor pushed at an oC_Expression node -/
 def bExpr : Nat → Tree → R Expr
@@ -315,7 +357,8 @@ def bExpr : Nat → Tree → R Expr
       | some c =>
         if countTok N t "NOT" == 0 then bExpr f c
         else if countTok N t "NOT" == 1 then (bExpr f c).map Expr.neg
-        else if N.mirrorNot then (bExpr f c).map Expr.neg   -- the code builds ONE Negation whatever the number of NOTs (finding)
+        else if N.nestedNot then (bExpr f c).map (nestNeg (countTok N t "NOT"))   -- repaired: one Negation per NOT token
+        else if N.mirrorNot then (bExpr f c).map Expr.neg   -- the old code builds ONE Negation whatever the number of NOTs (finding)
         else unr "oC_NotExpression:repeated-NOT"
     | "oC_ComparisonExpression" =>
       match kidsOfRule N t "oC_StringListNullPredicateExpression", kidsOfRule N t "oC_PartialComparisonExpression" with
@@ -387,7 +430,7 @@ def bPreds : Nat → Expr → List Tree → R Expr
 def bArith : Nat → Tree → R Expr
   | 0, t => un N t
   | f + 1, t =>
-    let ops := litTokens t
+    let ops := opTokens N.spNotOperator t
     if !(ops.all arithOps.contains) then unr "ArithmeticExpressionVisitor:non-blank-SP-token"   -- comment / odd space read as an operator (finding)
     else
       let operands := ruleKids t
@@ -684,6 +727,8 @@ def bReading (f : Nat) (t : Tree) : R Reading :=
 /-- PropertyExpressionVisitor: the atom, then every oC_PropertyKeyName OVERWRITES the symbol (a chained `n.a.b` keeps `b`:
 known finding C07:oC_PropertyLookup:silently-dropped — mirrored here so that the Go model is reproduced) -/
 def bPropertyExpression (f : Nat) (t : Tree) : R Expr :=
+  -- repaired (hooks/C07-fix5.patch): the second oC_PropertyLookup is reported as unsupported
+  if N.chainedLookupRejected && (kidsOfRule N t "oC_PropertyLookup").length ≥ 2 then .error (.rejected "oC_PropertyLookup rule is not supported") else
   match kidOfRule N t "oC_Atom" with
   | none => un N t
   | some a =>
@@ -1004,6 +1049,11 @@ def opWords (op : String) : List String :=
   if op == "starts with" then ["starts", "with"] else if op == "ends with" then ["ends", "with"]
   else if op == "is not" then ["is", "not"] else [op]
 
+/-- the function name as format.go writes it: repaired (hooks/C07-fix1.patch) `ns.` per component then the name; old: the
+components joined by '.' and NO separator before the name (`ns.fn(1)` came out as `nsfn(1)`) -/
+def fnNameTok (dotted : Bool) (ns : List String) (n : String) : String :=
+  if dotted then String.join (ns.map (· ++ ".")) ++ n else ".".intercalate ns ++ n
+
 def commaSep (xss : List (List String)) : List String :=
   match xss with
   | [] => []
@@ -1030,7 +1080,7 @@ def eExpr : Nat → Expr → List String
     | .kindMatcher r ks =>
       -- parser-built matchers are exclusive (all-of): `ref:A:B`; a single kind `ref:A`; no kind prints nothing
       if ks.isEmpty then [] else eExpr f r ++ (ks.map (fun k => [":", k])).flatten
-    | .fn d ns n args => [".".intercalate ns ++ n, "("] ++ (if d then ["distinct"] else []) ++ commaSep (args.map (eExpr f)) ++ [")"]
+    | .fn d ns n args => [fnNameTok Repair.namespaceDot ns n, "("] ++ (if d then ["distinct"] else []) ++ commaSep (args.map (eExpr f)) ++ [")"]
     | .star => ["*"]
     | .paren x => ["("] ++ eExpr f x ++ [")"]
     | .neg x => "not" :: eOperand f x 4
